@@ -65,4 +65,22 @@ theorem potential_entry_points_listed_partial :
     writesOf potentialWrites "Potential.__init__" = some [] ∧ writesOf potentialWrites "_validate_frozen_phonons" = some [] ∧
     writesOf phononWrites "FrozenPhonons.__init__" = some [] := by decide +kernel
 
+/-- atoms slicing, charge-density / GPAW potentials, magnetic IAM fields and `show_atoms` (abtem/slicing.py,
+abtem/potentials/charge_density.py, abtem/potentials/gpaw.py, abtem/magnetism/iam.py, abtem/visualize/visualizations.py): no function
+or method receiving `atoms` writes through it, directly or through a same-file callee.  `BaseSlicedAtoms.__init__` stores the caller's
+object without a copy (`self._atoms = atoms`; `Potential` hands it a copy, a direct user of `SlicedAtoms` does not), so the rows
+`…[stored _atoms]` matter: no method of the slicing classes writes through that field. -/
+theorem slicing_and_other_potentials_no_caller_writes_partial :
+    offenders slicingWrites = [] ∧ offenders chargeDensityWrites = [] ∧ offenders gpawWrites = [] ∧
+    offenders magnetismWrites = [] ∧ offenders visualizeWrites = [] := by decide +kernel
+
+/-- the entry points are in these tables, including the stored-field rows of the slicing classes (non-vacuity) -/
+theorem slicing_entry_points_listed_partial :
+    writesOf slicingWrites "crystal_slice_thicknesses" = some [] ∧ writesOf slicingWrites "BaseSlicedAtoms.__init__" = some [] ∧
+    writesOf slicingWrites "BaseSlicedAtoms.get_atoms_in_slices[stored _atoms]" = some [] ∧
+    writesOf slicingWrites "BaseSlicedAtoms.__getitem__[stored _atoms]" = some [] ∧
+    writesOf slicingWrites "SliceIndexedAtoms.__init__" = some [] ∧ writesOf slicingWrites "SlicedAtoms.__init__" = some [] ∧
+    writesOf chargeDensityWrites "ChargeDensityPotential.__init__" = some [] ∧
+    writesOf visualizeWrites "show_atoms" = some [] := by decide +kernel
+
 end AbtemVerif.Props.C32
